@@ -1226,6 +1226,7 @@ coap_notify_observers(coap_context_t *context, coap_resource_t *r,
                         COAP_RESPONSE_CLASS(response->code),
                         response->code & 0x1f);
           coap_delete_pdu(response);
+          coap_delete_string(query);
           return;
         }
 
